@@ -1,6 +1,6 @@
 """C15 - JSON codec: json_writer emits the specification's JSON encoding, json_reader reads it back,
 JSON and binary decode to the same records (numbers by value), absent keys take the schema defaults."""
-import io, json, math, re, struct
+import io, json, math, os, re, struct
 from .. import core, gen, gallina as G, codec_common as CC
 
 SRCFACTS = []
@@ -38,6 +38,8 @@ def exc_sym(e):
         return "RecursionError"
     if type(e) is Exception and str(e).startswith("Internal Parser Exception"):
         return "InternalParserException"
+    if type(e) is Exception and str(e).startswith("No key was set"):
+        return "NoKeyWasSet"
     return type(e).__name__
 
 
@@ -234,7 +236,10 @@ def is_num(x):
 
 
 def f32v(v):
-    return struct.unpack("<f", struct.pack("<f", float(v)))[0]
+    try:
+        return struct.unpack("<f", struct.pack("<f", float(v)))[0]
+    except (OverflowError, struct.error):
+        return None          # not a float32 value: compares unequal to every number
 
 
 def spec_json(j, v, s, named, wut=True, convert=True):
@@ -274,7 +279,7 @@ def spec_json(j, v, s, named, wut=True, convert=True):
     if t == "enum":
         return isinstance(j, str) and j == v
     if t == "array":
-        return isinstance(j, list) and isinstance(v, (list, tuple)) and len(j) == len(v) and all(
+        return isinstance(j, list) and isinstance(v, (list, tuple, bytes, bytearray)) and len(j) == len(v) and all(
             spec_json(a, b, s["items"], named, wut, convert) for a, b in zip(j, v))
     if t == "map":
         return isinstance(j, dict) and isinstance(v, dict) and list(j) == list(v) and all(
@@ -310,7 +315,8 @@ def value_equiv(v, out, s, named, convert=True):
     if t in ("string", "enum"):
         return isinstance(out, str) and out == v
     if t == "array":
-        return isinstance(out, list) and len(out) == len(v) and all(value_equiv(a, b, s["items"], named, convert) for a, b in zip(v, out))
+        return isinstance(out, list) and isinstance(v, (list, tuple, bytes, bytearray)) and len(out) == len(v) and all(
+            value_equiv(a, b, s["items"], named, convert) for a, b in zip(v, out))
     if t == "map":
         return isinstance(out, dict) and list(out) == list(v) and all(value_equiv(v[k], out[k], s["values"], named, convert) for k in v)
     if t in ("record", "error"):
@@ -467,12 +473,69 @@ def leaf_feature(s, v, named, pred):
     return pred(t, v)
 
 
+def has_empty_map_key(s, v, named):
+    """some map in the datum has the key '' (under a conforming branch)"""
+    s = resolve(s, named)
+    if isinstance(s, list):
+        return any(CC.conforms(v, b, named, False) and has_empty_map_key(b, v, named) for b in s)
+    t = s if isinstance(s, str) else s["type"]
+    if isinstance(t, (dict, list)):
+        return has_empty_map_key(t, v, named)
+    if t == "array":
+        return isinstance(v, (list, tuple)) and any(has_empty_map_key(s["items"], x, named) for x in v)
+    if t == "map":
+        return isinstance(v, dict) and ("" in v or any(has_empty_map_key(s["values"], x, named) for x in v.values()))
+    if t in ("record", "error"):
+        return isinstance(v, dict) and any(
+            has_empty_map_key(f["type"], v[f["name"]] if f["name"] in v else f.get("default"), named) for f in s["fields"])
+    return False
+
+
+def tail_record_depth(s, v, named):
+    """number of records nested along the tail of value v: record -> value of its last field -> chosen union branch -> ..."""
+    s = resolve(s, named)
+    if isinstance(s, list):
+        return max([tail_record_depth(b, v, named) for b in s if CC.conforms(v, b, named, False)] or [0])
+    t = s if isinstance(s, str) else s["type"]
+    if isinstance(t, (dict, list)):
+        return tail_record_depth(t, v, named)
+    if t in ("record", "error") and isinstance(v, dict):
+        if not s["fields"]:
+            return 1
+        f = s["fields"][-1]
+        return 1 + tail_record_depth(f["type"], v[f["name"]] if f["name"] in v else f.get("default"), named)
+    return 0
+
+
+def map_value_ends_in_nested_record(s, v, named, keyed=False):
+    """some non-empty map in the datum has a value that leaves record actions pending when json_decoder.iter_map pops and deletes
+    the key: the value's tail is a record inside a record, or (when the map itself sits under an object key: record field / outer
+    map value) a record without fields"""
+    s = resolve(s, named)
+    if isinstance(s, list):
+        return any(CC.conforms(v, b, named, False) and map_value_ends_in_nested_record(b, v, named, keyed) for b in s)
+    t = s if isinstance(s, str) else s["type"]
+    if isinstance(t, (dict, list)):
+        return map_value_ends_in_nested_record(t, v, named, keyed)
+    if t == "array":
+        return isinstance(v, (list, tuple)) and any(map_value_ends_in_nested_record(s["items"], x, named, False) for x in v)
+    if t == "map":
+        return isinstance(v, dict) and any(tail_record_depth(s["values"], x, named) >= 2 or
+                                           (keyed and tail_is_fieldless(s["values"], x, named)) or
+                                           map_value_ends_in_nested_record(s["values"], x, named, True) for x in v.values())
+    if t in ("record", "error"):
+        return isinstance(v, dict) and any(
+            map_value_ends_in_nested_record(f["type"], v[f["name"]] if f["name"] in v else f.get("default"), named, True)
+            for f in s["fields"])
+    return False
+
+
 def p_unconverted(t, v):
     """a float/double leaf whose Python number is not a value of the schema type (1.1 under float, 2**53+1 under double)"""
     if not is_num(v) or v != v or v in (math.inf, -math.inf):
         return False
     try:
-        return (t == "float" and f32v(v) != v) or (t == "double" and float(v) != v)
+        return (t == "float" and f32v(v) is not None and f32v(v) != v) or (t == "double" and float(v) != v)
     except OverflowError:
         return False
 
@@ -481,34 +544,64 @@ def p_nonfinite(t, v):
     return t in ("float", "double") and isinstance(v, float) and (v != v or v in (math.inf, -math.inf))
 
 
-def classify(c, site, symptom, rec=None):
-    """signature = C15:<site>:<feature>:<symptom>, feature from named predicates in a fixed order"""
-    recs = c.records if rec is None else [rec]
+def doc_empty_key_leaf(doc):
+    """the spec document has an object member "" whose value is not an object/array (json_encoder.write_value tests `if self._key`)"""
+    if isinstance(doc, list):
+        return any(doc_empty_key_leaf(x) for x in doc)
+    if isinstance(doc, dict):
+        return any((k == "" and not isinstance(x, (dict, list))) or doc_empty_key_leaf(x) for k, x in doc.items())
+    return False
+
+
+# feature -> (site it shows at, symptoms it explains); a symptom outside the set is a DIFFERENT defect ("other")
+FEATURES = [
+    ("recursive-type-other-than-direct-self-union", ("json_writer", "json_reader"), {"RecursionError"}),
+    ("record-type-parsed-again-self-typed-field-forced-null", ("json_writer",), {"IndexError", "InternalParserException"}),
+    ("record-type-parsed-again-self-typed-field-forced-null", ("json_reader",), {"ValueError", "InternalParserException"}),
+    ("fieldless-record-in-tail-position", ("json_writer",), {"InternalParserException"}),
+    ("empty-string-map-key-with-leaf-value", ("json_writer",), {"NoKeyWasSet"}),
+    ("map-value-ends-in-nested-record", ("json_reader",), {"KeyError", "ValueError"}),
+    ("number-not-converted-to-schema-type", ("json_writer",), {"text-is-not-the-spec-encoding"}),
+]
+
+
+def features_of(c, recs=None, docs=None):
+    """named predicates over the (minimised) case, independent of what the implementation did"""
+    recs = c.records if recs is None else recs
+    out = set()
     try:
         g = grammar(c.parsed, c.named)
     except NonTerminating:
-        return "C15:parser:recursive-type-other-than-direct-self-union:%s" % symptom
+        return {"recursive-type-other-than-direct-self-union"}       # nothing else is reachable: configure() fails
     if any(hits_forced(g, r, c.named) for r in recs):
-        return "C15:%s:record-type-parsed-again-self-typed-field-forced-null:%s" % (site, symptom)
-    if site == "json_writer" and recs and tail_is_fieldless(c.parsed, recs[-1], c.named):
-        return "C15:%s:fieldless-record-in-tail-position:%s" % (site, symptom)
+        out.add("record-type-parsed-again-self-typed-field-forced-null")
+    if recs and tail_is_fieldless(c.parsed, recs[-1], c.named):
+        out.add("fieldless-record-in-tail-position")
+    if docs is not None and any(doc_empty_key_leaf(d) for d in docs):
+        out.add("empty-string-map-key-with-leaf-value")
+    if any(map_value_ends_in_nested_record(c.parsed, r, c.named) for r in recs):
+        out.add("map-value-ends-in-nested-record")
     if any(leaf_feature(c.parsed, r, c.named, p_unconverted) for r in recs):
-        return "C15:%s:number-not-converted-to-schema-type:%s" % (site, symptom)
+        out.add("number-not-converted-to-schema-type")
+    return out
+
+
+def classify(c, site, symptom, docs=None):
+    """signature = C15:<site>:<feature>:<symptom>; the feature is the first named predicate that holds of the case and explains
+    the symptom, else `other` (so that a different defect on an input of a known class is not swallowed)"""
+    fs = features_of(c, docs=docs)
+    for name, sites, symptoms in FEATURES:
+        if name in fs and site in sites and symptom in symptoms:
+            where = "parser" if name.startswith("recursive-type") else site
+            return "C15:%s:%s:%s" % (where, name, symptom)
     return "C15:%s:other:%s" % (site, symptom)
 
 
-def in_known_class(c):
-    try:
-        g = grammar(c.parsed, c.named)
-    except NonTerminating:
-        return "nonterminating-grammar"
-    if any(hits_forced(g, r, c.named) for r in c.records):
-        return "forced-null"
-    if c.records and tail_is_fieldless(c.parsed, c.records[-1], c.named):
-        return "tail-fieldless"
-    if any(leaf_feature(c.parsed, r, c.named, p_unconverted) for r in c.records):
-        return "unconverted-number"
-    return None
+def in_known_class(c, docs=None):
+    fs = features_of(c, docs=docs)
+    if not c.wut:
+        fs.discard("map-value-ends-in-nested-record")          # reader is not run
+    return sorted(fs)[0] if fs else None
 
 
 # ================================================================ cases
@@ -682,16 +775,30 @@ def random_nested(rng, depth, ctr):
     return rec(name, [("f%d" % i, random_nested(rng, depth - 1, ctr)) for i in range(rng.choice([1, 2, 3]))])
 
 
+class SmallData(gen.DataGen):
+    """the codec generator's boundary-dense leaves, with short containers (documents stay small; depth is what matters here)"""
+
+    def size(self):
+        return self.rng.choice([0, 0, 1, 1, 2, 2, 3, 4]) if self.rng.random() < 0.95 else self.rng.choice([7, 17])
+
+    def string(self):
+        s = gen.DataGen.string(self)
+        return s if len(s) <= 8 or self.rng.random() < 0.1 else s[:self.rng.choice([1, 2, 5, 8])]
+
+    def bytes_(self, n=None):
+        if n is None and self.rng.random() < 0.8:
+            n = self.rng.choice([0, 1, 2, 3, 7])
+        return gen.DataGen.bytes_(self, n)
+
+
 def gen_cases(ctx, n):
+    import fastavro
     rng = ctx.rng
     cases, skipped = [], 0
     fam = fixed_families(rng)
 
-    def data_for(c_parsed, named, k):
-        out = []
-        for _ in range(k):
-            out.append(gen.DataGen(rng, named, hints=False).datum(c_parsed))
-        return out
+    def data_for(parsed, named, k):
+        return [to_plain(SmallData(rng, named, hints=False).datum(parsed)) for _ in range(k)]
 
     def add(raw, records, tag, both=False):
         nonlocal skipped
@@ -699,32 +806,31 @@ def gen_cases(ctx, n):
             try:
                 c = mk_case(raw, records, wut, tag)
                 if c.records is None:
-                    c.records = data_for(c.parsed, c.named, rng.choice([1, 1, 2, 3, 4]))
+                    c.records = data_for(c.parsed, c.named, rng.choice([1, 1, 2, 3]))
                 cases.append(c)
             except (gen.TooDeep, RecursionError):
                 skipped += 1
 
     for tag, raw, records in fam:
         add(raw, records, tag, both=True)
-        if records is None:
+        if records is None and not ctx.quick():
             add(raw, None, tag)
     ctr = [0]
-    for _ in range(max(20, n // 6)):
+    for _ in range(max(20, n // 5)):
         ctr[0] = 0
-        s = random_nested(rng, rng.choice([2, 3, 4]), ctr)
-        add(s, None, "random-nested")
-    for cc in CC.gen_cases(ctx, max(0, n - len(cases)), hints=False):
-        c = JCase()
-        c.raw, c.parsed, c.named = cc.raw, cc.parsed, cc.named
-        c.records = [cc.datum]
-        if rng.random() < 0.4:
+        add(random_nested(rng, rng.choice([2, 3, 4]), ctr), None, "random-nested")
+    rejected = 0
+    while len(cases) < n:
+        if rng.random() < 0.15:
+            raw, tag = rng.choice(CC.FIXED_SCHEMAS), "codec-pool"
+        else:
             try:
-                c.records += data_for(c.parsed, c.named, rng.choice([1, 2]))
-            except (gen.TooDeep, RecursionError):
-                pass
-        c.records = [to_plain(r) for r in c.records]
-        c.wut, c.tag = rng.random() < 0.8, "codec-gen"
-        cases.append(c)
+                raw, tag = CC.make_schema(rng)[0], "codec-gen"
+            except Exception:
+                rejected += 1
+                continue
+        add(raw, None, tag)
+    ctx.notes["schemas_rejected_by_parse"] = rejected
     ctx.notes["data_generation_skipped"] = skipped
     return cases
 
@@ -736,7 +842,7 @@ def to_plain(v):
     if isinstance(v, list):
         return [to_plain(x) for x in v]
     if isinstance(v, dict):
-        return {k: to_plain(x) for k, x in v.items()}
+        return {k: to_plain(x) for k, x in v.items() if k != "extra_key"}
     return v
 
 
@@ -746,7 +852,29 @@ def expr_json(c, r):
 
 
 def run_model(ctx, exprs, tag):
-    return core.coq_eval(exprs, IMPORTS, ctx.workdir, tag=tag, shard=120)
+    """evaluate in Coq; expressions are dealt to the shards by size so that the shards take about equally long"""
+    order = sorted(range(len(exprs)), key=lambda i: -len(exprs[i]))
+    nsh = max(1, min(16, (len(exprs) + 39) // 40))
+    per = (len(exprs) + nsh - 1) // nsh if exprs else 1
+    dealt = [[] for _ in range(nsh)]
+    for k, i in enumerate(order):
+        dealt[k % nsh].append(i)
+    perm = [i for d in dealt for i in d]
+    # shards must have equal length `per` for coq_eval's consecutive slicing: pad with a trivial expression
+    flat, back = [], []
+    for d in dealt:
+        for i in d:
+            back.append(i)
+            flat.append(exprs[i])
+        for _ in range(per - len(d)):
+            back.append(None)
+            flat.append('"pad"')
+    out = core.coq_eval(flat, IMPORTS, ctx.workdir, tag=tag, shard=per)
+    res = [None] * len(exprs)
+    for i, v in zip(back, out):
+        if i is not None:
+            res[i] = v
+    return res
 
 
 _MRE = re.compile(r"^J:(.*);(R:.*|E|FUEL|-);B:(.*);L:([01])$")
@@ -789,8 +917,6 @@ def check_case(ctx, c, ms, stats):
     """ms = split model outputs, one per record"""
     key = (repr(c.raw), repr(c.records), c.wut)
     nontriv = any(has_depth(r) for r in c.records)
-    kc = in_known_class(c)
-    stats["known_class:" + (kc or "none")] = stats.get("known_class:" + (kc or "none"), 0) + 1
     if any(not isinstance(m, tuple) for m in ms):
         bad = [m for m in ms if not isinstance(m, tuple)]
         if all(m == "NOJSON" for m in bad):
@@ -803,6 +929,13 @@ def check_case(ctx, c, ms, stats):
     if not all(m[3] for m in ms):
         stats["float_leaves_not_ok"] = stats.get("float_leaves_not_ok", 0) + 1
     docs = [by_value(m[0]) for m in ms]
+    spec_docs = [parse_jv(m[0]) for m in ms]
+
+    def docs_of(m):
+        return [d for d, r in zip(spec_docs, c.records) if any(r is x for x in m.records)]
+
+    kc = in_known_class(c, spec_docs)
+    stats["known_class:" + (kc or "none")] = stats.get("known_class:" + (kc or "none"), 0) + 1
 
     # ---- corr:json-text : the writer's lines are the spec documents
     ctx.count("corr:json-text", key, nontrivial=nontriv)
@@ -814,15 +947,13 @@ def check_case(ctx, c, ms, stats):
         except ValueError:
             lines = None
     if w[0] != "ok":
-        def fails(m):
-            return impl_json_write(m.parsed, m.records, m.wut)[:2] == w[:2]
-        m = minimise(c, fails)
+        m = minimise(c, lambda m: impl_json_write(m.parsed, m.records, m.wut)[:2] == w[:2])
         ctx.violation("corr:json-text", m.to_json(), impl="json_writer %s %s" % w, model="; ".join(docs)[:1500],
-                      signature=classify(m, "json_writer", w[1]), found_input=True,
+                      signature=classify(m, "json_writer", w[1], docs_of(m)), found_input=True,
                       detail="json_writer raises on conforming records that have a specification JSON encoding")
     elif lines is None or len(lines) != len(c.records):
         ctx.violation("corr:json-text", c.to_json(), impl=w[1][:1500], model="; ".join(docs)[:1500],
-                      signature=classify(c, "json_writer", "not-one-document-per-record"), found_input=True)
+                      signature=classify(c, "json_writer", "not-one-document-per-record", spec_docs), found_input=True)
     else:
         for r, doc, line in zip(c.records, docs, lines):
             got = show_doc(line)
@@ -832,11 +963,16 @@ def check_case(ctx, c, ms, stats):
             m = mk_like(c, [r])
             if not spec:
                 loose = spec_json(line, r, c.parsed, c.named, c.wut, convert=False)
-                sig = classify(m, "json_writer", "text-is-not-the-spec-encoding") if loose else \
+                sig = classify(m, "json_writer", "text-is-not-the-spec-encoding", docs_of(m)) if loose else \
                     "C15:json_writer:other:text-is-not-the-spec-encoding"
                 ctx.violation("corr:json-text", m.to_json(), impl=got[:1500], model=doc[:1500], signature=sig, found_input=True,
                               detail="independent spec relation rejects the written document" +
                                      (" (numbers written as given, not as values of the schema type)" if loose else ""))
+            elif not c.wut and "number-not-converted-to-schema-type" in features_of(m):
+                # bare union values: the branch is not observable; the text is the number as given, a spec encoding under another
+                # conforming branch than the model's (which branch is C09's business)
+                stats["bare_union_number_under_other_branch"] = stats.get("bare_union_number_under_other_branch", 0) + 1
+                continue
             else:
                 ctx.violation("corr:json-text", m.to_json(), impl=got[:1500], model=doc[:1500], signature="C15:model-differs:json-text",
                               found_input=False, detail="document differs from the model's but satisfies the independent spec relation")
@@ -845,20 +981,20 @@ def check_case(ctx, c, ms, stats):
     # ---- corr:json-read : json_reader on the SPEC documents returns the written records
     if not c.wut:
         return
-    spec_docs = [parse_jv(m[0]) for m in ms]
     text = "\n".join(json.dumps(d) for d in spec_docs)
     ctx.count("corr:json-read", key, nontrivial=nontriv)
     rd = impl_json_read(c.parsed, text)
     want = [by_value(m[1]) for m in ms]
-    if rd[0] != "ok" or len(rd[1]) != len(c.records):
-        def failsr(m):
-            t = "\n".join(json.dumps(d) for d, r in zip(spec_docs, c.records) if any(r is x for x in m.records))
-            return impl_json_read(m.parsed, t)[0] != "ok"
-        m = minimise(c, failsr) if rd[0] != "ok" else c
-        ctx.violation("corr:json-read", dict(m.to_json(), text=text[:1500]), impl="json_reader %s %s" % (rd[0], str(rd[1])[:300]),
-                      model="; ".join(want)[:1500], signature=classify(m, "json_reader", rd[1] if rd[0] != "ok" else "record-count-differs"),
+    outs = None
+    if rd[0] != "ok":
+        m = minimise(c, lambda m: impl_json_read(m.parsed, "\n".join(json.dumps(d) for d in docs_of(m)))[:2] == rd[:2])
+        ctx.violation("corr:json-read", dict(m.to_json(), text="\n".join(json.dumps(d) for d in docs_of(m))[:1500]),
+                      impl="json_reader %s %s" % (rd[0], str(rd[1])[:300]), model="; ".join(want)[:1500],
+                      signature=classify(m, "json_reader", rd[1], docs_of(m)),
                       found_input=True, detail="json_reader fails on the specification's JSON encoding of conforming records")
-        outs = None
+    elif len(rd[1]) != len(c.records):
+        ctx.violation("corr:json-read", dict(c.to_json(), text=text[:1500]), impl="json_reader returned %d records" % len(rd[1]),
+                      model="; ".join(want)[:1500], signature=classify(c, "json_reader", "record-count-differs", spec_docs), found_input=True)
     else:
         outs = rd[1]
         for r, out, wv in zip(c.records, outs, want):
@@ -869,7 +1005,7 @@ def check_case(ctx, c, ms, stats):
             m = mk_like(c, [r])
             if not holds:
                 ctx.violation("corr:json-read", m.to_json(), impl=got[:1500], model=wv[:1500],
-                              signature=classify(m, "json_reader", "records-differ-from-written"), found_input=True,
+                              signature=classify(m, "json_reader", "records-differ-from-written", docs_of(m)), found_input=True,
                               detail="json_reader does not return the written record")
             else:
                 ctx.violation("corr:json-read", m.to_json(), impl=got[:1500], model=wv[:1500], signature="C15:model-differs:json-read",
@@ -890,7 +1026,7 @@ def check_case(ctx, c, ms, stats):
             if not same_by_value(jo, bo):
                 m = mk_like(c, [r])
                 ctx.violation("corr:json-vs-binary", m.to_json(), impl=("json: " + show_val(jo) + " binary: " + show_val(bo))[:1500], model=None,
-                              signature=classify(m, "json_reader", "differs-from-binary-decoding"), found_input=True,
+                              signature=classify(m, "json_reader", "differs-from-binary-decoding", docs_of(m)), found_input=True,
                               detail="records decoded from JSON differ by value from those decoded from the binary encoding")
                 break
     elif b[0] != "ok":
@@ -899,6 +1035,8 @@ def check_case(ctx, c, ms, stats):
 
 def check_nonfinite(ctx, c, stats):
     """NaN / infinity: no spec encoding.  Record what the code does (Python tokens NaN/Infinity, read back by json.loads)."""
+    if in_known_class(c):
+        return
     w = impl_json_write(c.parsed, c.records, c.wut)
     if w[0] != "ok":
         stats["nonfinite_writer_raised"] = stats.get("nonfinite_writer_raised", 0) + 1
@@ -976,6 +1114,76 @@ def out_path(path, s, named):
     return res
 
 
+def fresh(c):
+    """a fresh parse of the case's schema (json_reader may consume defaults held in the schema it is given)"""
+    import fastavro
+    named = {}
+    return fastavro.parse_schema(json.loads(json.dumps(c.raw)), named), named
+
+
+def nested_union_in_default(d, s, named, top=True):
+    """the default value contains, below its top level, a value of union type (defaults are not written in wrapped form)"""
+    s = resolve(s, named)
+    if isinstance(s, list):
+        return (not top) or nested_union_in_default(d, s[0], named, top)
+    t = s if isinstance(s, str) else s["type"]
+    if isinstance(t, (dict, list)):
+        return nested_union_in_default(d, t, named, top)
+    if t == "array":
+        return isinstance(d, list) and any(nested_union_in_default(x, s["items"], named, False) for x in d)
+    if t == "map":
+        return isinstance(d, dict) and any(nested_union_in_default(x, s["values"], named, False) for x in d.values())
+    if t in ("record", "error"):
+        return isinstance(d, dict) and any(
+            nested_union_in_default(d[f["name"]] if f["name"] in d else f.get("default"), f["type"], named, False) for f in s["fields"])
+    return False
+
+
+def contains_items(d):
+    """the default holds a non-empty list/dict somewhere (json_decoder hands the schema's own object out and consumes it)"""
+    if isinstance(d, list):
+        return len(d) > 0
+    if isinstance(d, dict):
+        return len(d) > 0
+    return False
+
+
+def default_feature(f, named):
+    """named predicate over the deleted field: what kind of default the reader had to supply"""
+    if nested_union_in_default(f["default"], f["type"], named):
+        return "default-with-nested-union"
+    k = dkind(f["type"], named)
+    if k == "union":
+        k = "union-of-" + dkind(resolve(f["type"], named)[0], named)
+    return "default-of-" + k
+
+
+def apply_deletions(doc, done):
+    doc2 = json.loads(json.dumps(doc))
+    for path, f in sorted(done, key=lambda pf: -len(pf[0])):
+        del get_path(doc2, path)[f["name"]]
+    return doc2
+
+
+def defaults_outcome(c, doc, done):
+    """(status, impl text, expected text, holds?) for one set of deletions, everything on fresh schemas"""
+    parsed, named = fresh(c)
+    doc2 = apply_deletions(doc, done)
+    full = impl_json_read(fresh(c)[0], json.dumps(doc))
+    if full[0] != "ok" or len(full[1]) != 1:
+        return ("unreadable", None, None, None, doc2)
+    rd = impl_json_read(fresh(c)[0], json.dumps(doc2))
+    expect = json_clone(full[1][0])
+    for path, f in sorted(done, key=lambda pf: len(pf[0])):
+        o = expect
+        for p in out_path(path, parsed, named):
+            o = o[p]
+        o[f["name"]] = default_py(f["default"], f["type"], named)
+    if rd[0] != "ok" or len(rd[1]) != 1:
+        return ("raised", rd[1] if rd[0] != "ok" else "record-count-differs", show_val(expect), False, doc2)
+    return ("ok", "R:" + show_val(rd[1][0]), "R:" + show_val(expect), same_by_value(rd[1][0], expect), doc2)
+
+
 def check_defaults(ctx, cases, model_by_case, stats):
     """delete defaulted keys from the spec documents; json_reader must return the defaults there and the written values elsewhere"""
     rng = ctx.rng
@@ -984,61 +1192,76 @@ def check_defaults(ctx, cases, model_by_case, stats):
         ms = model_by_case[id(c)]
         if not c.wut or any(not isinstance(m, tuple) for m in ms):
             continue
+        parsed, named = fresh(c)
         for r, m in zip(c.records, ms):
             doc = parse_jv(m[0])
-            dels = deletions(rng, doc, c.parsed, c.named)
+            dels = deletions(rng, doc, parsed, named)
             if not dels:
                 continue
             k = rng.choice([1, 1, 2, 3, len(dels)])
             chosen = rng.sample(dels, min(k, len(dels)))
-            # deleting inside a subtree that is itself deleted is pointless: keep deepest-first order and skip missing
-            chosen.sort(key=lambda pf: -len(pf[0]))
-            doc2 = json.loads(json.dumps(doc))
+            # a deletion inside an already deleted subtree is dropped
             done = []
-            for path, f in chosen:
-                try:
-                    o = get_path(doc2, path)
-                    del o[f["name"]]
+            for path, f in sorted(chosen, key=lambda pf: len(pf[0])):
+                if not any(tuple(path[:len(p) + 1]) == tuple(p) + (g["name"],) for p, g in done):
                     done.append((path, f))
-                except (KeyError, IndexError, TypeError):
-                    pass
-            if done:
-                jobs.append((c, r, doc, doc2, done))
-    exprs = ["run_jread %s %s %s" % (G.env_to_coq(c.named), G.schema_to_coq(c.parsed), jv_to_coq(doc2)) for c, r, doc, doc2, done in jobs]
+            jobs.append((c, r, doc, done))
+            if c.tag == "defaults" or not ctx.quick():       # every defaulted key on its own
+                jobs += [(c, r, doc, [d]) for d in dels[:40] if [d] != done]
+            break                                           # one record per case
+    exprs = ["run_jread %s %s %s" % (G.env_to_coq(c.named), G.schema_to_coq(fresh(c)[0]), jv_to_coq(apply_deletions(doc, done)))
+             for c, r, doc, done in jobs]
     outs = run_model(ctx, exprs, "c15d")
-    for (c, r, doc, doc2, done), mo in zip(jobs, outs):
+    twice = 0
+    for (c, r, doc, done), mo in zip(jobs, outs):
+        st, got, expect, holds, doc2 = defaults_outcome(c, doc, done)
+        if st == "unreadable":
+            stats["defaults_skipped_document_unreadable"] = stats.get("defaults_skipped_document_unreadable", 0) + 1
+            continue                                        # reported by corr:json-read
         ctx.count("corr:json-defaults", (repr(c.raw), repr(doc2)), nontrivial=True)
-        full = impl_json_read(c.parsed, json.dumps(doc))
-        rd = impl_json_read(c.parsed, json.dumps(doc2))
-        case = dict(c.to_json(), records_repr=repr([r]), document=json.dumps(doc2)[:1500],
-                    deleted=[[list(map(str, p)), f["name"]] for p, f in done])
-        # the statement, independently: defaults at the deleted places, the written record elsewhere
-        expect = None
-        if full[0] == "ok" and len(full[1]) == 1:
-            expect = json_clone(full[1][0])
-            try:
-                for path, f in sorted(done, key=lambda pf: len(pf[0])):
-                    o = expect
-                    for p in out_path(path, c.parsed, c.named):
-                        o = o[p]
-                    o[f["name"]] = default_py(f["default"], f["type"], c.named)
-            except (KeyError, IndexError, TypeError):
-                expect = None
-        kinds = sorted(set(dkind(f["type"], c.named) for _, f in done))
-        if rd[0] != "ok" or len(rd[1]) != 1:
-            ctx.violation("corr:json-defaults", case, impl="json_reader %s %s" % (rd[0], str(rd[1])[:200]), model=(mo or "")[:1500],
-                          signature="C15:json_reader:default-of-%s:%s" % ("+".join(kinds), rd[1] if rd[0] != "ok" else "record-count"),
-                          found_input=True, detail="json_reader fails when a defaulted key is absent")
-            continue
-        got = "R:" + show_val(rd[1][0])
-        holds = expect is None or same_by_value(rd[1][0], expect)
+        named = fresh(c)[1]
         if not holds:
-            ctx.violation("corr:json-defaults", case, impl=got[:1500], model=(mo or "")[:1500],
-                          signature="C15:json_reader:default-of-%s:value-is-not-the-default" % "+".join(kinds), found_input=True,
-                          detail="expected " + show_val(expect)[:600])
-        elif mo is None or by_value(mo) != got:
-            ctx.violation("corr:json-defaults", case, impl=got[:1500], model=(mo or "")[:1500], signature="C15:model-differs:json-defaults",
+            # minimise to a single deletion showing the same symptom
+            one = done
+            for d in done:
+                st1, got1, exp1, holds1, doc21 = defaults_outcome(c, doc, [d])
+                if not holds1 and (st1, got1 if st1 == "raised" else None) == (st, got if st == "raised" else None):
+                    one, got, expect, doc2 = [d], got1, exp1, doc21
+                    break
+            feat = default_feature(one[0][1], named) if len(one) == 1 else "several-defaults"
+            case = dict(c.to_json(), records_repr=repr([r]), document=json.dumps(doc2)[:1500],
+                        deleted=[[list(map(str, p)), f["name"]] for p, f in one])
+            ctx.violation("corr:json-defaults", case, impl=str(got)[:1500], model=(mo or "")[:1500],
+                          signature="C15:json_reader:%s:%s" % (feat, got if st == "raised" else "value-is-not-the-default"),
+                          found_input=True, detail="json_reader must return the schema default for an absent key; expected " + str(expect)[:600])
+            continue
+        if mo is None or by_value(mo) != got:
+            case = dict(c.to_json(), records_repr=repr([r]), document=json.dumps(doc2)[:1500],
+                        deleted=[[list(map(str, p)), f["name"]] for p, f in done])
+            ctx.violation("corr:json-defaults", case, impl=str(got)[:1500], model=(mo or "")[:1500], signature="C15:model-differs:json-defaults",
                           found_input=False)
+            continue
+        # the same document twice on one reader: the second record must get the defaults too
+        t = json.dumps(doc2)
+        rd2 = impl_json_read(fresh(c)[0], t + "\n" + t)
+        twice += 1
+        ctx.count("corr:json-defaults-twice", (repr(c.raw), repr(doc2)), nontrivial=True)
+        if rd2[0] != "ok" or len(rd2[1]) != 2 or not same_by_value(rd2[1][0], rd2[1][1]):
+            one = done
+            for d in done:
+                t1 = json.dumps(apply_deletions(doc, [d]))
+                x = impl_json_read(fresh(c)[0], t1 + "\n" + t1)
+                if x[0] != "ok" or len(x[1]) != 2 or not same_by_value(x[1][0], x[1][1]):
+                    one, rd2, t = [d], x, t1
+                    break
+            feat = "non-empty-array-or-map-default" if rd2[0] == "ok" and any(contains_items(f["default"]) for _, f in one) else \
+                (default_feature(one[0][1], named) if len(one) == 1 else "several-defaults")
+            case = dict(c.to_json(), records_repr=repr([r, r]), document=(t + "\n" + t)[:1500],
+                        deleted=[[list(map(str, p)), f["name"]] for p, f in one])
+            ctx.violation("corr:json-defaults-twice", case,
+                          impl=(" | ".join(show_val(x) for x in rd2[1]) if rd2[0] == "ok" else "raised %s" % rd2[1])[:1500], model=(mo or "")[:1500],
+                          signature="C15:json_reader:%s:%s" % (feat, "default-consumed-by-the-first-record" if rd2[0] == "ok" else rd2[1]),
+                          found_input=True, detail="the same document twice on one reader: the second record does not get the default")
     stats["default_deletion_jobs"] = len(jobs)
 
 
@@ -1059,7 +1282,7 @@ def json_clone(v):
 
 
 def run(ctx):
-    n = 900 if ctx.quick() else 14000
+    n = int(os.environ.get("C15_N", "0")) or (900 if ctx.quick() else 14000)
     cases = gen_cases(ctx, n)
     exprs, owner = [], []
     for c in cases:
